@@ -128,6 +128,8 @@ pub fn check_request(cx: &mut Ctx, r: &PReq, info: &model::ReqInfo, oracle: &str
         let got = r.get_var(VarName::new(&sp));
         vcheck!(got == exp.map(|v| &v[..]), oracle, "get_var({sp:?}) = {:?}, model {:?}", got.map(hex), exp.map(|v| hex(v)));
         vcheck!(r.contains_var(VarName::new(&sp)) == exp.is_some(), oracle, "contains_var({sp:?}) mismatch");
+        let exp_str = exp.and_then(|v| std::str::from_utf8(v).ok());
+        vcheck!(r.get_var_str(VarName::new(&sp)) == exp_str, oracle, "get_var_str({sp:?}) = {:?}, model {:?}", r.get_var_str(VarName::new(&sp)), exp_str);
     }
     for absent in ["__ABSENT__", "HTTP_NOT_THERE_AT_ALL", "request_methodx"] {
         let exp = info.env.get(&absent.to_ascii_uppercase());
@@ -327,6 +329,7 @@ pub fn gen_precase(cx: &mut Ctx, o: &PreOpts) -> PreCase {
         cx.probe("abort_during_params");
     }
     preamble_records(cx, &mut recs, id, role, flags, &pairs, o.noise_num, eff, true);
+    junk_reserved(cx, &mut recs);
     let mut wire = encode_all(&recs);
     let trailing = if cx.ch.chance(1, 3) { cx.ch.range(1, 40) } else { 0 };
     let t = gen_bytes(cx, trailing);
